@@ -623,6 +623,10 @@ pub fn alphabet(root: &Level, style: AlphaStyle) -> Vec<Tok> {
                         if k == 0 {
                             out.push(Tok::s(&format!("-{}=v", s)));
                             out.push(Tok::s(&format!("-{}w", s)));
+                            if style == AlphaStyle::Full {
+                                // an explicitly empty value
+                                out.push(Tok::s(&format!("-{}=", s)));
+                            }
                             arg_shorts.push(*s);
                         }
                     } else if k == 0 {
@@ -635,6 +639,10 @@ pub fn alphabet(root: &Level, style: AlphaStyle) -> Vec<Tok> {
                         // inline form also for flags: `--flag=v` must be rejected
                         if n.kind.is_arg() || style == AlphaStyle::Full {
                             out.push(Tok::s(&format!("--{}=v", lg)));
+                        }
+                        if style == AlphaStyle::Full {
+                            // an explicitly empty value: `--name=` (for a flag: still a value)
+                            out.push(Tok::s(&format!("--{}=", lg)));
                         }
                     }
                 }
